@@ -1,6 +1,8 @@
 """C07 - the eager scheduler wastes no cycle."""
 
-from tv.designs import gen_spec
+from hypothesis import strategies as st
+
+from tv.designs import gen_conflict_graph_spec, gen_spec
 from tv.props._core_a import run_design, tier_opts
 
 ID = "C07"
@@ -22,11 +24,14 @@ TECHNIQUE = "grammar-based design generation + exhaustive input valuations again
 
 
 def budget(tier):
-    return dict(examples=25, seconds=45) if tier == "quick" else dict(examples=300, seconds=420)
+    return dict(examples=70, seconds=45) if tier == "quick" else dict(examples=300, seconds=420)
 
 
 def strategy(tier):
-    return gen_spec(**{**tier_opts(tier), **dict(allow_rels=True, allow_rdep=True, sched="eager", min_trans=2, max_trans=5, allow_alias=False, nonex_rate=2)})
+    general = gen_spec(**{**tier_opts(tier), **dict(allow_rels=True, allow_rdep=True, sched="eager", min_trans=2, max_trans=5, allow_alias=False, nonex_rate=2)})
+    # one case in four is a relation-heavy design (many small transactions, hub / chain conflict topologies)
+    graph = gen_conflict_graph_spec(sched="eager")
+    return st.integers(0, 3).flatmap(lambda k: graph if k == 3 else general)
 
 
 def run_case(case):
